@@ -748,6 +748,50 @@ Example bicg_left_eigenvector_breakdown_nonvacuous : wfS kq_s /\ @sp_tmul AQ kq_
   is_divzero (@solve_bicg SAQ (@sp_mul AQ kq_s) (@sp_tmul AQ kq_s) 2 2 1 [q 2 1; q (-2) 1] [q 0 1; q 0 1] 140 (q 1 1000)) = true.
 Proof. split; [exact kq_s_wf|]. split; [exact kq_left_eigenvector | exact (proj1 kq_bicg_panics)]. Qed.
 
+(* the MECHANISM of the open finding solve_bicgstab/breakdown as a theorem, exact arithmetic (any field, any sqrt, ANY lam): if the initial
+   (= shadow) residual is a left eigenvector of A, <r0, r1> = <r0, s> - omega <A^T r0, s> = 0 because alpha makes <r0, s> vanish: whenever
+   solve_bicgstab returns it returns from its FIRST step (Ok 1, or Err `omega == 0`) or from the first line of its second iteration
+   through `rho_1 == 0`.  All three committed witnesses corpus/C09/kf_*.json are left-eigenvector starts *)
+Theorem bicgstab_left_eigenvector_breakdown : forall (A : SArith), FieldLaws (SA A) ->
+  forall n (mulA mulAT : list (T (SA A)) -> res (list (T (SA A)))), LinOp n mulA -> AdjOp n mulA mulAT ->
+  forall (b x0 ax : list (T (SA A))) lam max tol res x g,
+  mulA x0 = Ok ax ->
+  let r0 := zipw sub b ax in
+  mulAT r0 = Ok (vscale r0 lam) -> 2 <= max ->
+  solve_bicgstab mulA n n b x0 max tol = Ok (res, x, g) ->
+  res = IOk 0 \/ res = IOk 1 \/ (exists e, res = IErr e /\ (g_exit g = 10 \/ g_exit g = 11)).
+Proof. intros A FL n mulA mulAT LO ADJ b x0 ax lam max tol res x g. exact (bicgstab_left_eigenvector_breakdown FL n mulA mulAT LO ADJ b x0 ax lam max tol res x g). Qed.
+Check bicgstab_left_eigenvector_breakdown : forall (A : SArith), FieldLaws (SA A) ->
+  forall n (mulA mulAT : list (T (SA A)) -> res (list (T (SA A)))), LinOp n mulA -> AdjOp n mulA mulAT ->
+  forall (b x0 ax : list (T (SA A))) lam max tol res x g,
+  mulA x0 = Ok ax ->
+  let r0 := zipw sub b ax in
+  mulAT r0 = Ok (vscale r0 lam) -> 2 <= max ->
+  solve_bicgstab mulA n n b x0 max tol = Ok (res, x, g) ->
+  res = IOk 0 \/ res = IOk 1 \/ (exists e, res = IErr e /\ (g_exit g = 10 \/ g_exit g = 11)).
+Print Assumptions bicgstab_left_eigenvector_breakdown.
+
+(* for the implementation's matrix type; instance: the committed witness [[2,0,1],[0,4,-1],[0,0,3]] x = (0,-6,6), x0 = 0, lam = 4 (over Qc: exit 10) *)
+Theorem bicgstab_left_eigenvector_breakdown_sparse : forall (A : SArith) (FL : FieldLaws (SA A)) (s : sparse (SA A)) (b x0 : list (T (SA A))) lam max tol res x g,
+  wfS s ->
+  let r0 := zipw sub b (sp_apply s x0) in
+  sp_tapply s r0 = vscale r0 lam -> 2 <= max ->
+  run_sparse BiCGSTAB s b x0 max tol = Ok (res, x, g) ->
+  res = IOk 0 \/ res = IOk 1 \/ (exists e, res = IErr e /\ (g_exit g = 10 \/ g_exit g = 11)).
+Proof. intros A FL s b x0 lam max tol res x g. exact (bicgstab_left_eigenvector_breakdown_sparse FL s b x0 lam max tol res x g). Qed.
+Check bicgstab_left_eigenvector_breakdown_sparse : forall (A : SArith) (FL : FieldLaws (SA A)) (s : sparse (SA A)) (b x0 : list (T (SA A))) lam max tol res x g,
+  wfS s ->
+  let r0 := zipw sub b (sp_apply s x0) in
+  sp_tapply s r0 = vscale r0 lam -> 2 <= max ->
+  run_sparse BiCGSTAB s b x0 max tol = Ok (res, x, g) ->
+  res = IOk 0 \/ res = IOk 1 \/ (exists e, res = IErr e /\ (g_exit g = 10 \/ g_exit g = 11)).
+Print Assumptions bicgstab_left_eigenvector_breakdown_sparse.
+Example bicgstab_left_eigenvector_breakdown_sparse_nonvacuous : wfS k3q_s /\
+  (let r0 := @zipw AQ sub [q 0 1; q (-6) 1; q 6 1] (@sp_apply AQ k3q_s [q 0 1; q 0 1; q 0 1]) in
+   @sp_tapply AQ k3q_s r0 = @vscale AQ r0 (q 4 1)) /\
+  exit_code_q (@run_sparse SAQ BiCGSTAB k3q_s [q 0 1; q (-6) 1; q 6 1] [q 0 1; q 0 1; q 0 1] 160 (q 1 1000000)) = Some 10.
+Proof. split; [exact k3q_s_wf|]. split; [exact k3q_left_eigenvector | exact k3q_stab_exit]. Qed.
+
 (* the MECHANISM of the open finding solve_qmr/breakdown as a theorem, over R with the exact square root: if the initial residual is a left
    eigenvector of A (A^T r0 = lam r0, lam <> 0, r0 <> 0), solve_qmr performs exactly ONE step -- the left Lanczos vector
    w~ = A^T q - beta w vanishes identically -- and then either that step's test accepted (Ok 1; Ok 0 if the guess was accepted) or the
